@@ -4,6 +4,7 @@
 package regmodel
 
 import (
+	"encoding/base64"
 	"crypto/sha256"
 	"crypto/sha512"
 	"encoding/hex"
@@ -46,6 +47,44 @@ func FallbackTag(d string) string {
 		hex = hex[:64]
 	}
 	return alg + "-" + hex
+}
+
+// SignedPayload extracts the canonical payload of a libtrust pretty-signed document (nil if it is not one).
+func SignedPayload(raw []byte) []byte {
+	var doc struct {
+		Signatures []struct {
+			Protected string `json:"protected"`
+		} `json:"signatures"`
+	}
+	if json.Unmarshal(raw, &doc) != nil || len(doc.Signatures) == 0 {
+		return nil
+	}
+	pb, err := base64.RawURLEncoding.DecodeString(strings.TrimRight(doc.Signatures[0].Protected, "="))
+	if err != nil {
+		return nil
+	}
+	var prot struct {
+		FormatLength int    `json:"formatLength"`
+		FormatTail   string `json:"formatTail"`
+	}
+	if json.Unmarshal(pb, &prot) != nil || prot.FormatLength > len(raw) || prot.FormatLength <= 0 {
+		return nil
+	}
+	tail, err := base64.RawURLEncoding.DecodeString(strings.TrimRight(prot.FormatTail, "="))
+	if err != nil {
+		return nil
+	}
+	return append(append([]byte{}, raw[:prot.FormatLength]...), tail...)
+}
+
+// ManifestDigest is the digest a registry assigns to a manifest body of the given media type.
+func ManifestDigest(alg, mt string, raw []byte) string {
+	if mt == "application/vnd.docker.distribution.manifest.v1+prettyjws" {
+		if p := SignedPayload(raw); p != nil {
+			return Digest(alg, p)
+		}
+	}
+	return Digest(alg, raw)
 }
 
 func algOf(d string) string {
@@ -295,7 +334,7 @@ func (g *Reg) manifests(req *simnet.Request, repo, ref string, q url.Values) *si
 		} else if dq := q.Get("digest"); dq != "" && IsDigest(dq) {
 			alg = algOf(dq)
 		}
-		d := Digest(alg, raw)
+		d := ManifestDigest(alg, req.Header.Get("Content-Type"), raw)
 		if IsDigest(ref) && ref != d {
 			return resp(400, "DIGEST_INVALID")
 		}
